@@ -222,6 +222,16 @@ FACT = [
     ("s_ctor_empty_dtype", CORE, "COO.__init__",
      ["if shape and (not self.coords.size):\n    self.coords = np.zeros((len(shape) if isinstance(shape, Iterable) else 1, 0), dtype=np.intp)"],
      "Definition s_ctor_empty_dtype (d : dty) : dty := DInt i64."),
+    # GCXS._reduce_calc: the row numbers of the re-compressed array x are made in x's OWN indptr dtype (2e026b4;
+    # alternative: the operand's dtype before re-compression, which may be too narrow — then the theorem breaks)
+    ("s_gcxs_reduce_rows", GCXS, "GCXS._reduce_calc",
+     ["x = self.change_compressed_axes(compressed_axes)",
+      "indices = np.arange(x._compressed_shape[0], dtype=x.indptr.dtype)[idx]"],
+     "Definition s_gcxs_reduce_rows (d_self d_x : dty) (rows : Z) : tarr := assign_into d_x (mkT (DInt i64) (zrange_ rows))."),
+    ("s_gcxs_reduce_rows", GCXS, "GCXS._reduce_calc",
+     ["x = self.change_compressed_axes(compressed_axes)",
+      "indices = np.arange(x._compressed_shape[0], dtype=self.indptr.dtype)[idx]"],
+     "Definition s_gcxs_reduce_rows (d_self d_x : dty) (rows : Z) : tarr := assign_into d_self (mkT (DInt i64) (zrange_ rows))."),
     # _calc_counts_invidx: dtype of the returned offsets / counts.  Two alternatives (the first whose
     # statements are all present is emitted): intp (current code), or the dtype of `groups` (finding D2,
     # repaired by 5f3fb78 — if it comes back the definition below changes and reduce's theorem breaks)
